@@ -157,7 +157,7 @@ def check(res, tier):
     alias = [p for _, p in C08.programs()]
     if quick:
         alias = [p for i, p in enumerate(alias) if i % 3 == sd % 3 or "readonly" in ""]
-        alias += [p for l, p in C08.programs() if "readonly" in l or "silent" in l]
+        alias += [p for l, p in C08.programs() if any(k in l for k in ("readonly", "silent", "foreach-local", "return-own", "recursive"))]
     st1 = differential(res, ddp, model, alias, cfgs, "alias-matrix")
     mprogs, cells, nsingles = C01.matrix_programs(model, rng, 2 if quick else 8)
     st2 = differential(res, ddp, model, mprogs, cfgs, "operator-matrix")
